@@ -109,6 +109,13 @@ pub fn run(ops: &[String]) -> Vec<String> {
 		let mut speeds: Vec<String> = vec![];
 		let mut nan_reported = false;
 		let mut pending_ticking: Option<bool> = None;
+		// C05 "a speed change or speed tween takes effect when it is due" (due in audio time, whether or not the
+		// clock is ticking): a `speed` command with a fixed target and an immediate / delayed start, written
+		// but not yet read (last write wins) …
+		let mut speed_cmd: Option<Option<SpeedDue>> = None;
+		// … and the one in force since the `osp` that read it
+		let mut speed_due: Option<SpeedDue> = None;
+		let mut after_speed_change = false;
 		for l in &case[1..] {
 			let tok: Vec<&str> = l.split_whitespace().collect();
 			match tok[0] {
@@ -128,6 +135,7 @@ pub fn run(ops: &[String]) -> Vec<String> {
 						Value::Fixed(s) => Some(tps(s)),
 						_ => None,
 					};
+					after_speed_change = false;
 					expected = 0.0;
 					let (c, h) = HClock::new(v);
 					out.put(show(&c, &h));
@@ -163,6 +171,7 @@ pub fn run(ops: &[String]) -> Vec<String> {
 					speed_desc = tok[1].to_string();
 					speeds.push(tok[1].to_string());
 					fixed_tps = None;
+					speed_cmd = Some(SpeedDue::parse(tok[1], tok[2]));
 					out.put(show(c, h));
 				}
 				"osp" => {
@@ -174,6 +183,10 @@ pub fn run(ops: &[String]) -> Vec<String> {
 					let (st, sf) = c.state().unwrap_or((0, 0.0));
 					if t.ticks != st || t.fraction.to_bits() != sf.to_bits() || h.ticking() != c.ticking() {
 						out.oracle_fail("handle_shows_state_after_osp", l);
+					}
+					if let Some(cmd) = speed_cmd.take() {
+						speed_due = cmd;
+						fixed_tps = None;
 					}
 					if let Some(t) = pending_ticking.take() {
 						if c.ticking() != t {
@@ -266,6 +279,19 @@ pub fn run(ops: &[String]) -> Vec<String> {
 						show(c, h)
 					));
 					// --- oracles ---
+					// the speed tween in force is over (in audio time, counted over ALL updates): from the next
+					// update on the clock runs at exactly the target speed (C06: "from the end of the tween onward
+					// equals the target", to within one update of timing - hence "from the next update on")
+					let mut just_settled = false;
+					if let Some(d) = speed_due.as_mut() {
+						if d.over(dt) {
+							fixed_tps = Some(d.target_tps);
+							expected = c.state().map(|(t, f)| t as f64 + f).unwrap_or(0.0);
+							speed_due = None;
+							just_settled = true;
+							after_speed_change = true;
+						}
+					}
 					if !was_ticking {
 						let same = match (before, c.state()) {
 							(None, None) => true,
@@ -288,12 +314,15 @@ pub fn run(ops: &[String]) -> Vec<String> {
 								out.oracle_fail("fraction_in_unit_interval", l);
 							}
 						}
-						if let Some(v) = fixed_tps.filter(|v| v.abs() <= 1e9) {
+						if let (Some(v), false) = (fixed_tps.filter(|v| v.abs() <= 1e9), just_settled) {
 							expected += v * dt;
 							let (t, f) = c.state().unwrap();
 							let val = t as f64 + f;
 							if (val - expected).abs() > 1e-9 * (1.0 + expected.abs()) {
-								out.oracle_fail("clock_accumulates", l);
+								out.oracle_fail(
+									if after_speed_change { "speed_change_in_force_when_due" } else { "clock_accumulates" },
+									l,
+								);
 							}
 						}
 					}
@@ -302,6 +331,54 @@ pub fn run(ops: &[String]) -> Vec<String> {
 			}
 		}
 	})
+}
+
+/// A speed change with a fixed target, read by the clock at some `osp`: when is it certainly over?
+/// The tween begins `delay` seconds of audio time after the command was read and lasts `duration`; the delay is
+/// counted down in whole updates (the update during which it runs out does not count towards the tween), so
+/// with S = the audio time of all updates since the command was read and m = the longest single update among
+/// them, the tween time is at least S - delay - m. `over` answers S - m >= delay + duration + 1 us (the
+/// microsecond covers the nanosecond rounding of the delay countdown, at most 0.5 ns per update).
+struct SpeedDue {
+	target_tps: f64,
+	delay: f64,
+	duration: f64,
+	elapsed: f64,
+	longest: f64,
+}
+impl SpeedDue {
+	fn parse(value: &str, tween: &str) -> Option<Self> {
+		let v = value.strip_prefix("fix:")?;
+		let (unit, x) = v.split_once('=')?;
+		let x = p64(x);
+		// the documented unit relations (not the accessors under test)
+		let target_tps = match unit {
+			"spt" => 1.0 / x,
+			"tps" => x,
+			_ => x / 60.0,
+		};
+		if !(target_tps.is_finite() && target_tps >= 0.0) {
+			return None;
+		}
+		let p: Vec<&str> = tween.split(';').collect();
+		let delay = if p[0] == "imm" {
+			0.0
+		} else {
+			pu(p[0].strip_prefix("del:")?) as f64 / 1e9
+		};
+		Some(Self {
+			target_tps,
+			delay,
+			duration: pu(p[1]) as f64 / 1e9,
+			elapsed: 0.0,
+			longest: 0.0,
+		})
+	}
+	fn over(&mut self, dt: f64) -> bool {
+		self.elapsed += dt;
+		self.longest = self.longest.max(dt);
+		self.elapsed - self.longest >= self.delay + self.duration + 1e-6
+	}
 }
 
 pub fn gen(rng: &mut Rng, n: usize, _thorough: bool, stats: &mut Stats) -> Vec<String> {
